@@ -6,17 +6,17 @@ from scoda.exceptions.bar_exception import BarException
 
 META = {
     "bounds": {
-        "quick": "signatures {4/4,3/4,6/8,2/2,5/8,7/8,12/8,3/8}; 7 shapes of <=2 notes with 0 / 1 / 2 time-signature events whose "
-                 "numerator is symbolic 1..13 (matching, conflicting and duplicate are the solver's choice); every wait symbolic in "
+        "quick": "signatures {4/4,3/4,6/8,2/2,5/8,7/8,12/8,3/8,2/4,4/8,8/4,4/2}; 7 shapes of <=2 notes with 0 / 1 / 2 time-signature events whose "
+                 "numerator is symbolic 1..13 (matching, conflicting and duplicate are the solver's choice); (denominator = the bar's, or symbolic in {2,4,8} for the shapes ts_ts and ts_n1); every wait symbolic in "
                  "1..2*capacity (shorter / equal / longer than the bar); key None or one of 15",
-        "thorough": "as quick, waits up to 3*capacity, plus 3-note shape and denominators of the events symbolic in {2,4,8}",
+        "thorough": "as quick, waits up to 3*capacity, plus a 3-note shape",
     },
     "outside_claim": ["denominators for which the capacity is not an integer number of ticks (e.g. x/64)", "more than 3 notes"],
     "stubs": ["int() shadowed in scoda modules (identity on SymInt)", "logging disabled",
               "duration/PPQN modelled as an exact real quotient; comparison with the capacity certified exact (DESIGN 2.3)"],
 }
 
-SIGS = [(4, 4), (3, 4), (6, 8), (2, 2), (5, 8), (7, 8), (12, 8), (3, 8)]
+SIGS = [(4, 4), (3, 4), (6, 8), (2, 2), (5, 8), (7, 8), (12, 8), (3, 8), (2, 4), (4, 8), (8, 4), (4, 2)]
 SHAPES = {
     "empty": [],
     "rest": ["W"],
@@ -95,11 +95,14 @@ def queries(tier, seed):
         for j, s in enumerate(shapes):
             key = None if (i + j) % 2 == 0 else KEYS[(seed + i * 7 + j) % 15]
             qs.append(q_bar(sig, s, 2 if tier == "quick" else 3, key, False))
+    for sig in SIGS:
+        # signature events whose denominator is symbolic in {2,4,8} as well
+        qs.append(q_bar(sig, "ts_ts", 2, KEYS[4], True))
+        qs.append(q_bar(sig, "ts_n1", 2, None, True))
     if tier == "thorough":
         for sig in SIGS:
             qs.append(q_bar(sig, "n3_ts", 2, None, False))
-            qs.append(q_bar(sig, "ts_ts", 2, KEYS[4], True))
-            qs.append(q_bar(sig, "ts_n1", 2, None, True))
+            qs.append(q_bar(sig, "n1_ts_mid", 2, None, True))
     return qs
 
 
